@@ -55,7 +55,7 @@ type vResult struct {
 	group   string
 	flatten int  // 0 = not flattened, n>0 = flattened slice of n-1 elements
 	form    int  // 0 positional (name/group from the Provide options), 1 field of the result object
-	as      int  // 0 none, 1 = As(vI0), 2 = As(vI0, vI1); the Go type is then *vA
+	as      int  // 0 none, 1 = As(vI0), 2 = As(vI0, vI1), 3 = As(vI0, vI1, vI2); the Go type is then *vA
 	whole   bool // decorator result replacing a whole group: a slice without the flatten tag
 }
 
@@ -68,6 +68,8 @@ func (r *vResult) keys() []vKey {
 		return []vKey{{t: vI0Type, name: r.name, group: r.group}}
 	case 2:
 		return []vKey{{t: vI0Type, name: r.name, group: r.group}, {t: vI1Type, name: r.name, group: r.group}}
+	case 3:
+		return []vKey{{t: vI0Type, name: r.name, group: r.group}, {t: vI1Type, name: r.name, group: r.group}, {t: vI2Type, name: r.name, group: r.group}}
 	}
 	return []vKey{r.key()}
 }
@@ -86,14 +88,17 @@ type vA struct{ Tok int64 }
 
 func (*vA) vM0() {}
 func (*vA) vM1() {}
+func (*vA) vM2() {}
 
 type vI0 interface{ vM0() }
 type vI1 interface{ vM1() }
+type vI2 interface{ vM2() }
 
 var (
 	vAType  = reflect.TypeOf(&vA{})
 	vI0Type = reflect.TypeOf((*vI0)(nil)).Elem()
 	vI1Type = reflect.TypeOf((*vI1)(nil)).Elem()
+	vI2Type = reflect.TypeOf((*vI2)(nil)).Elem()
 )
 
 type vFunc struct {
@@ -707,6 +712,8 @@ func (f *vFunc) provideOpts(r *vReg, w *vWorld) []ProvideOption {
 		opts = append(opts, As(new(vI0)))
 	case 2:
 		opts = append(opts, As(new(vI0), new(vI1)))
+	case 3:
+		opts = append(opts, As(new(vI0), new(vI1), new(vI2)))
 	}
 	if f.callback {
 		opts = append(opts, WithProviderCallback(func(ci CallbackInfo) { w.gotCallback(r, ci) }))
